@@ -13,11 +13,13 @@
          run tys p = Ok g ->              (* no builder call raises *)
          valid {| v_tys := tys; v_main := g; v_subs := [] |} = true.
 
-   For builder calls outside the model (Function/Module/Cfg/Conditional/TailLoop roots and statements, call /
+   For builder calls outside the model (Function/Module/Cfg/Conditional/TailLoop roots and statements, call /\
+
    load_function, CallIndirect, insert_*, tracked builder) `valid` is evaluated by the monitor on the implementation's
    own document for every generated program.
 
-   `run` is the builder model of model/Builder.v (programs over Dfg / add_op / add / extend / load /
+   `run` is the builder model of model/Builder.v (programs over Dfg / add_op / add / extend / load /\
+
    add_nested / add_state_order / set_outputs with non-local wires, any nesting depth); it is tied to
    hugr-py by the correspondence `run prog == the document the real builders serialise` on generated
    programs (run/C01Run.v), and the premise wf_prog is evaluated on each of those programs. *)
@@ -26,7 +28,8 @@ Import ListNotations.
 From HV Require Import lib.Harness model.Validity model.Builder spec.BuilderS proofs.BuilderP proofs.BuilderExtP
   spec.BuilderWFS proofs.BuilderFrameP proofs.BuilderRulesP proofs.BuilderTypeP
   proofs.BuilderAcyclicP proofs.BuilderNonLocalP proofs.BuilderInputsP proofs.BuilderLinearP proofs.BuilderCopyP
-  model.Builder2 proofs.Builder2EmbP spec.Builder2WFS proofs.Builder2P proofs.Builder2FrameP proofs.Builder2RulesP proofs.Builder2TypeP proofs.Builder2NonLocalP.
+  model.Builder2 proofs.Builder2EmbP spec.Builder2WFS proofs.Builder2P proofs.Builder2FrameP proofs.Builder2RulesP proofs.Builder2TypeP proofs.Builder2NonLocalP
+  spec.Builder2LiveS proofs.Builder2AcyclicP proofs.Builder2LinearP proofs.Builder2ValidP.
 
 (* Proved for ALL programs of the modelled language, with no well-formedness premise: whenever the
    builder calls do not raise, the serialised document satisfies
@@ -99,7 +102,8 @@ Print Assumptions C01_builder_linear_once.
 (* Second pass.  r_acyclic (rule 10, the boolean the validator computes: Kahn's algorithm on fuel over the
    value, static and order edges between the children of each dataflow container) for every program whose
    add_state_order calls go forward (spec/BuilderWFS.v: ord_prog, a boolean computed from the program text:
-   statement ids unique; every add_state_order joins Input / statements of the region it is written in /
+   statement ids unique; every add_state_order joins Input / statements of the region it is written in /\
+
    Output in program order) and whose builder calls do not raise.  The ranking: node index, Output last; the
    builders only wire existing nodes to the node being added, set_outputs wires into Output, and the order edge
    of a non-local wire runs from the wire's source to a container created after it. *)
@@ -207,8 +211,8 @@ Print Assumptions C01_builder2_valid_embedded.
                       Conditional has at least one Case (a Conditional over an empty sum never completes: the model,
                       like hugr-py, fails at serialisation).
    Premise croot_ok (spec/Builder2WFS.v, computed from the program text): no constant is placed at the root of a
-   Hugr that is rooted in a Conditional.  For rules 3-17 see below: proved for the embedded language only, monitored
-   for the rest of the extended language. *)
+   Hugr that is rooted in a Conditional.  For rules 3-17 see below (third pass: 3-8, 12-17; fourth pass: 9, 10, 11 and
+   the whole of `valid`, C01_builder2_valid). *)
 Theorem C01_builder2_structural : forall tys p g,
   croot_ok p = true -> run2 tys p = Ok g ->
   r_index g = true /\ r_child_tags g = true /\ r_first_second g = true.
@@ -241,7 +245,8 @@ Print Assumptions C01_builder2_root_func_cfg.
 
 (* Third pass.  For every WELL-TYPED program of the EXTENDED language (spec/Builder2WFS.v: wt_prog2, a boolean computed
    from the program text: wires bound, typed and alive — the wires and statements of a separately built program are
-   dead outside it and the enclosing program's are dead inside —, arguments of fixed-signature operations / Tags /
+   dead outside it and the enclosing program's are dead inside —, arguments of fixed-signature operations / Tags /\
+
    CallIndirect / inserted programs have the right input row, a loop body outputs Sum [just_inputs; just_outputs] ::
    rest, all cases of a conditional give the same outputs, Tags and constants agree with the type table,
    add_state_order joins live statements) whose builder calls do not raise:
@@ -252,8 +257,8 @@ Print Assumptions C01_builder2_root_func_cfg.
                                 re-indexed edges of inserted programs and the wires into TailLoop / Conditional / inserted
                                 roots;
      r_const (rule 17)        : constants inhabit their type.
-   Rule 8 and rules 12, 14, 15 follow below; rules 9, 10, 11 are proved for the embedded language only
-   (C01_builder2_valid_embedded) and monitored for the rest of the extended language. *)
+   Rule 8 and rules 12, 14, 15 follow below; rules 9, 10, 11 need liveness-aware premises and follow in the fourth pass
+   (C01_builder2_linear_once, C01_builder2_acyclic, C01_builder2_nonlocal_copyable) at the end of this file. *)
 Theorem C01_builder2_typed_rules : forall tys p g,
   wt_prog2 tys p = true -> croot_ok p = true -> run2 tys p = Ok g ->
   r_io_rows g = true /\ r_derived_types tys g = true /\ r_port_counts g = true /\ r_edge_kinds g = true /\
@@ -305,11 +310,90 @@ Theorem C01_builder2_nonlocal_example : croot_ok ex5_prog = true /\ wt_prog2 ex5
 Proof. exact ex5_nonlocal. Qed.
 Print Assumptions C01_builder2_nonlocal_example.
 
-(* Rule 10 (acyclic regions) is NOT claimed for the extended language, and cannot be without a liveness premise on
-   wires: a program that uses, inside a case of a Conditional under construction, the dead wire of a previously inserted
-   program (it names the node index of the Conditional in the enclosing Hugr) runs without any builder call raising
-   and its document has a cycle.  wt_prog2 rejects it; the program contains no add_state_order. *)
+(* Rule 10 (acyclic regions) cannot be claimed for the extended language without a liveness premise on wires: a program
+   that uses, inside a case of a Conditional under construction, the dead wire of a previously inserted program (it
+   names the node index of the Conditional in the enclosing Hugr) runs without any builder call raising and its
+   document has a cycle.  wt_prog2 rejects it; the program contains no add_state_order.  With the liveness premise
+   ord_prog2 (fourth pass) rule 10 IS a theorem for the whole extended language: C01_builder2_acyclic below. *)
 Theorem C01_dead_wire_cycle_refuted : croot_ok ex6_prog = true /\ wt_prog2 ex6_tys ex6_prog = false /\
   exists g, run2 ex6_tys ex6_prog = Ok g /\ r_acyclic g = false.
 Proof. exact ex6_dead_wire_cycle. Qed.
 Print Assumptions C01_dead_wire_cycle_refuted.
+
+(* ==================================================================== fourth pass: rules 9, 10, 11 for the WHOLE extended
+   language, under liveness-aware premises (spec/Builder2LiveS.v, booleans computed from the program text):
+     ord_prog2 p      statement ids and wire ids never re-bound; every argument wire of a statement and every output wire
+                      of a region is LIVE there — bound in that region or in an enclosing region of the same Hugr, not in a
+                      region already closed, not in another case, not in a separately built program (any insert_ call); a
+                      separately built program sees no wire of the enclosing one; add_state_order joins Input / statements
+                      of its own region / Output in program order;
+     lin_prog2 tys p  (for a well-typed p) every output of non-copyable type is bound to a wire, and every wire of
+                      non-copyable type is consumed exactly once in the region that bound it — nested Dfg, loop body,
+                      case, separately built program each start with the non-copyable wires of their own Input node and
+                      end with none pending.
+   wf_prog2 = croot_ok && wt_prog2 && ord_prog2 && lin_prog2.  The premises are evaluated on every in-model generated
+   program (run/C01Run.v: CPrem2). *)
+
+(* Rule 10 (the fuelled Kahn boolean of the validator) for every program of the extended language: the links between
+   siblings go forward (node index, Output last) — the order edge of a non-local wire because a LIVE wire starts before
+   every container still open, or inside it; the re-indexed links of an inserted program because insert_hugr is monotone.
+   Needs no typing premise. *)
+Theorem C01_builder2_acyclic : forall tys p g,
+  croot_ok p = true -> ord_prog2 p = true -> run2 tys p = Ok g -> r_acyclic g = true.
+Proof. exact run2_acyclic. Qed.
+Print Assumptions C01_builder2_acyclic.
+
+(* the dead-wire program of C01_dead_wire_cycle_refuted is exactly what the liveness premise excludes; the loop /\
+
+   conditional / inserted-Dfg examples satisfy it *)
+Theorem C01_builder2_ord_examples : ord_prog2 ex4_prog = true /\ ord_prog2 ex5_prog = true /\ ord_prog2 ex6_prog = false.
+Proof. exact (conj ex4_ord (conj ex5_ord ex6_ord)). Qed.
+Print Assumptions C01_builder2_ord_examples.
+
+(* Rule 9 for every program of the extended language: every out port of non-copyable type of every non-root node has
+   exactly one link — across add_tail_loop, add_conditional (cases in any order), every insert_* (the inner program's
+   accounting is carried over by insert_hugr), CallIndirect. *)
+Theorem C01_builder2_linear_once : forall tys p g,
+  wt_prog2 tys p = true -> croot_ok p = true -> lin_prog2 tys p = true -> run2 tys p = Ok g -> r_linear_once tys g = true.
+Proof. exact run2_linear_once. Qed.
+Print Assumptions C01_builder2_linear_once.
+
+(* Rule 11 for every program of the extended language: no non-local edge carries a non-copyable value (a non-copyable
+   wire is consumed in the region that bound it) and no order edge is non-local. *)
+Theorem C01_builder2_nonlocal_copyable : forall tys p g,
+  wt_prog2 tys p = true -> croot_ok p = true -> ord_prog2 p = true -> lin_prog2 tys p = true -> run2 tys p = Ok g ->
+  r_nonlocal_copyable tys g = true.
+Proof. exact run2_nonlocal_copyable. Qed.
+Print Assumptions C01_builder2_nonlocal_copyable.
+
+(* the linearity premise is needed: hugr-py raises neither for a non-copyable wire used twice (rule 9 fails) nor for
+   one used inside a nested region (rule 11 fails) *)
+Theorem C01_builder2_linear_refuted :
+  (wt_prog2 ex7_tys ex8_twice = true /\ lin_prog2 ex7_tys ex8_twice = false /\
+   exists g, run2 ex7_tys ex8_twice = Ok g /\ r_linear_once ex7_tys g = false) /\
+  (wt_prog2 ex7_tys ex8_nonlocal = true /\ lin_prog2 ex7_tys ex8_nonlocal = false /\
+   exists g, run2 ex7_tys ex8_nonlocal = Ok g /\ r_nonlocal_copyable ex7_tys g = false).
+Proof. exact (conj ex8_twice_refuted ex8_nonlocal_refuted). Qed.
+Print Assumptions C01_builder2_linear_refuted.
+
+(* THE GOAL for the extended builder language: every well-formed program (Dfg / add_op / load / add_nested /\
+
+   add_state_order / add_tail_loop / add_conditional / add_if + add_else / every insert_* / CallIndirect; Dfg, TailLoop
+   and Conditional roots) whose builder calls do not raise serialises a document that the whole of `valid` — all 18
+   rules and the type table — accepts. *)
+Theorem C01_builder2_valid : forall tys p g,
+  r_table tys = true -> wf_prog2 tys p = true -> run2 tys p = Ok g ->
+  valid {| v_tys := tys; v_main := g; v_subs := [] |} = true.
+Proof. exact run2_valid. Qed.
+Print Assumptions C01_builder2_valid.
+
+(* its premises are satisfiable: the loop + conditional + inserted-Dfg example, the non-local example, and a program
+   in which a NON-COPYABLE value goes through a Conditional, an inserted Dfg and a TailLoop (19 nodes) *)
+Theorem C01_builder2_wf_examples :
+  (wf_prog2 ex4_tys ex4_prog = true /\ r_table ex4_tys = true) /\ (wf_prog2 ex5_tys ex5_prog = true /\ r_table ex5_tys = true) /\
+  (wf_prog2 ex7_tys ex7_prog = true /\ r_table ex7_tys = true /\
+   exists g, run2 ex7_tys ex7_prog = Ok g /\ valid {| v_tys := ex7_tys; v_main := g; v_subs := [] |} = true /\
+     length (g_nodes g) = 19%nat /\
+     existsb (fun n => existsb (fun t => negb (ty_copy ex7_tys t)) (val_out (n_op n))) (g_nodes g) = true).
+Proof. exact (conj ex4_wf (conj ex5_wf ex7_linear)). Qed.
+Print Assumptions C01_builder2_wf_examples.
